@@ -69,6 +69,10 @@ CHECKS = {
    text="Every card with spinning final-state particles (incl. spin 1/2, massless restricted-helicity photon) and >= 2 chains (all chain subsets incl. two of three topologies, second resonance in a slot) x ALL permutations of the chain list x option tuples of (align_ref, random_z, center_mass, only_left_angle) (all 16 for the declared order; quick: 7 for the other orders) x events with the parent at rest and moving (beta = 0.6); density equals the reference card's (declared order, defaults) after copying all parameters by name.",
    note="align_ref=center_mass with a moving parent only together with center_mass=True (usage precondition). Known finding: restricted helicity list + align_ref=center_mass.",
    technique="bounded-exhaustive enumeration of chain permutations x option tuples x frames with a differential oracle"),
+ "C03": dict(level="exploration", ref="4-C03",
+   text="Decay groups (three-body spin families incl. a second resonance in one slot; a four-body group where one resonance takes part in two chains): every non-empty chain subset equals the sum of its single-chain amplitude tensors; ordered pairs of selections (the selection API is stateful); each chain proportional to its own complex coupling (5-element menu); selection by every resonance-name set of size 1-2 against the card; fit fractions for every resonance list that partitions the chains, also with a restricted sub-model already active, through fit_fractions old / new (FitFractions) / cal_fitfractions_no_grad x batch sizes {1,2,3,N-1,N,N+1,4N,None} x N in {7,16} x weighted/unweighted samples against references built from single-chain integrals; sum rule; selection restored.",
+   note="References use plain numpy sums over the library's single-chain amplitudes.",
+   technique="bounded-exhaustive enumeration of chain subsets / selection histories / batchings with partial-sum references"),
 }
 
 NA_REASON = "check not built yet in this round (planned in DESIGN.md section 4)"
